@@ -23,11 +23,14 @@ from agilerl.modules.resnet import EvolvableResNet
 class Script:
     """Replaces np.random.randint / np.random.choice while a mutation method runs.
     raw draw r  ->  randint(lo, hi) = lo + r % (hi - lo);  choice(a) = a[r % len(a)]
-    (return types as numpy's: Python int without `size`, int64 array with it)."""
+    (return types as numpy's: Python int without `size`, int64 array with it).
+    randint calls consume the raws in order; choice calls use the LAST raw: a method draws a layer index
+    (randint) and an amount (choice) independently, so the order of these two statements is immaterial."""
 
     def __init__(self, raws):
         self.raws = list(raws)
         self.used = 0
+        self.used_choice = 0
 
     def _next(self):
         if self.used >= len(self.raws):
@@ -48,7 +51,10 @@ class Script:
 
     def choice(self, a, size=None, replace=True, p=None):
         a = list(a) if not isinstance(a, int) else list(range(a))
-        v = a[self._next() % len(a)]
+        if not self.raws:
+            raise AssertionError("mutation method drew a random number but none was scripted")
+        self.used_choice += 1
+        v = a[int(self.raws[-1]) % len(a)]
         if size is None:
             return np.int64(v)
         return np.full(size, v, dtype=np.int64)
@@ -353,7 +359,8 @@ def meth_args(step, names):
 
 
 def draws(step, n):
-    r = list(step.get("r", [])) + [0, 0]
+    r = list(step.get("r", []))
+    r = r + [r[-1] if r else 0] * n          # np.random.choice is fed the LAST scripted raw (see Script)
     return ", ".join(cz(x) for x in r[:n])
 
 
